@@ -220,7 +220,8 @@ CLAIMED = {
     "C16": dict(
         text="Lean 4 theorems over an executable model of x/sudo and the four gated entry points: a gated operation is accepted iff the "
              "sender is a currently listed contract or the current root (as addresses), at the time of the call over any history; only "
-             "the root changes the contract list or hands the role over; removed contracts and former roots lose access; an accepted "
+             "the root changes the contract list or hands the role over; a hand-over removes nobody from the list (listed contracts are served "
+             "afterwards as before); removed contracts and former roots lose access; an accepted "
              "gated operation writes exactly its own store; rejected messages change nothing. T1 facts regenerated on every run pin the "
              "set of functions consulting CheckPermissions, that the check precedes the first store write, and the root checks of "
              "EditSudoers/ChangeRoot. Correspondence on the real msg servers.",
